@@ -1,10 +1,11 @@
 #!/bin/bash
-# thorough tier for every check against a given copy of the repository (default /repo)
-repo=${1:-/repo}
+# thorough tier for every check against a given copy of the repository (default /repo), LANES checks at a time
+repo=${1:-/repo}; LANES=${LANES:-1}
 cd /verif
-for f in checks/C*.json; do
-  id=$(basename $f .json)
-  start=$(date +%s)
-  out=$(./bin/gosym check $id --tier thorough -repo $repo 2>&1 | grep -E "^(OK|VIOLATION|KNOWN-FINDING|BROKEN|SPURIOUS|CONFORMANCE|REPLAY-ERROR)" | cut -c1-300)
+one() {
+  id=$1; start=$(date +%s)
+  out=$(./bin/gosym check $id --tier thorough -repo $repo 2>&1 | grep -E "^(OK|VIOLATION|KNOWN-FINDING|BROKEN|SPURIOUS|CONFORMANCE|REPLAY-ERROR|INCONCLUSIVE)" | cut -c1-300)
   echo "$id ($(( $(date +%s) - start )) s): $out"
-done
+}
+export -f one; export repo
+ls checks | sed 's/.json//' | xargs -P $LANES -I{} bash -c 'one {}'
